@@ -2,7 +2,7 @@
 //! wall-clock values or several groups, where the graph search does not apply directly.
 
 use mdk_core::prelude::*;
-use serde_json::json;
+use serde_json::{Value, json};
 
 use crate::explore::{Action, step};
 use crate::families::*;
@@ -299,6 +299,80 @@ pub fn c18_own_messages_pointer(rep: &mut Report, backend: Bk) {
                 check(&z, &steps, rep);
             }
             rep.case(&format!("own-pointer|{backend:?}|{own_first}|{label}"));
+        }
+    }
+    rep.states += 1;
+}
+
+/// C07, sender role: the echo of an own message confirms the stored copy (Created -> Processed) and changes nothing
+/// else about it - every stored field including the processing time, which the graphs cannot observe because it is
+/// wall-clock - and neither does any further echo. Enumerated: backend x rumor time {long ago, now, ahead} x a peer's
+/// message stored before / after / never x 1..3 echoes.
+pub fn c07_own_echo_fields(rep: &mut Report, backend: Bk) {
+    use mdk_storage_traits::groups::GroupStorage;
+    let sc = base("own-echo-fields", &["A", "B", "Z"], &["A"], &[], vec![act("B", ActKind::Msg("peer".into()), 5)]);
+    let w = match build_world(&sc, backend) {
+        Ok(w) => w,
+        Err(e) => {
+            rep.machinery_errors.push(format!("c07 own-echo world: {}", e.0));
+            return;
+        }
+    };
+    let peer = w.pool.iter().position(|p| p.kind == EvKind::Msg).unwrap();
+    let now_ts = now();
+    let fields = |z: &Client, id: &nostr::EventId| -> Option<(Value, String)> {
+        let m = with_mdk!(z, m => m.get_message(&w.gid, id)).ok().flatten()?;
+        let mut v = message_json(&m);
+        v["processed_at"] = json!(m.processed_at.as_secs());
+        let st = v["state"].as_str().unwrap_or("").to_string();
+        v.as_object_mut().unwrap().remove("state");
+        Some((v, st))
+    };
+    let group_fields = |z: &Client| -> Value {
+        let g = with_mdk!(z, m => m.get_group(&w.gid)).ok().flatten();
+        json!(g.map(|g| (g.last_message_id.map(|i| i.to_hex()), g.last_message_at.map(|t| t.as_secs()), g.last_message_processed_at.map(|t| t.as_secs()), g.epoch, g.name)))
+    };
+    for (tlabel, ts) in [("long-ago", now_ts - 5000), ("now", now_ts), ("ahead", now_ts + 5000)] {
+        for peer_when in ["never", "before", "between"] {
+            let z = w.initial["Z"].fork();
+            if peer_when == "before" {
+                let _ = z.process(&w.pool[peer].event);
+            }
+            let Ok(ev) = with_mdk!(z, m => m.create_message(&w.gid, rumor(&z.keys, &format!("own-{tlabel}"), ts))) else {
+                rep.machinery_errors.push("c07 own-echo: create_message failed".into());
+                continue;
+            };
+            let id = with_mdk!(z, m => m.get_messages(&w.gid, None)).ok().and_then(|v| v.into_iter().find(|m| m.wrapper_event_id == ev.id).map(|m| m.id));
+            let Some(id) = id else {
+                rep.machinery_errors.push("c07 own-echo: own message not stored".into());
+                continue;
+            };
+            if peer_when == "between" {
+                let _ = z.process(&w.pool[peer].event);
+            }
+            let Some((f0, s0)) = fields(&z, &id) else { continue };
+            let g0 = group_fields(&z);
+            let mut prev = (f0.clone(), g0.clone());
+            for n in 1..=3 {
+                let r = z.process(&ev);
+                let Some((f, s)) = fields(&z, &id) else {
+                    rep.finding(format!("C07|own-message-echo|stored-copy-gone|echo-{n}|{backend:?}"), format!("after echo {n} of an own message ({}) the stored copy is gone", result_kind(&r)), json!({"backend": format!("{backend:?}")}));
+                    break;
+                };
+                let gf = group_fields(&z);
+                rep.case(&format!("own-echo|{backend:?}|{tlabel}|{peer_when}|echo-{n}|{}|{s0}->{s}", result_kind(&r)));
+                rep.evaluations += 1;
+                if f != prev.0 || gf != prev.1 {
+                    let changed: Vec<String> = f.as_object().map(|o| o.keys().filter(|k| f[k.as_str()] != prev.0[k.as_str()]).cloned().collect()).unwrap_or_default();
+                    rep.finding(
+                        format!("C07|own-message-echo|{}|changed={}{}|{backend:?}", if n == 1 { "first-echo-changed-more-than-the-state" } else { "repeated-echo-changed-the-stored-copy" }, changed.join("+"), if gf != prev.1 { "+group-last-message-fields" } else { "" }),
+                        format!("own message (rumor time {tlabel}, peer message {peer_when}): echo {n} ({}) changed {changed:?} of the stored copy{}", result_kind(&r), if gf != prev.1 { " and the group's last-message fields" } else { "" }),
+                        json!({"backend": format!("{backend:?}"), "before": prev.0, "after": f, "group_before": prev.1, "group_after": gf}),
+                    );
+                    break;
+                }
+                prev = (f, gf);
+            }
         }
     }
     rep.states += 1;
